@@ -75,6 +75,19 @@ def make_set(rng, tier, stress):
 def run_case(idx, rng, tier, res):
     stress = idx % 6 == 5
     g = make_set(rng, tier, stress)
+    if rng.random() < 0.1:
+        # "bug in some IETF MIBs": an application type used without being imported - the compiler supplies
+        # these imports itself, the module still has to load
+        for m in g.modules:
+            for gi, (frm, syms) in enumerate(m.imports):
+                if frm == 'SNMPv2-SMI':
+                    drop = [x for x in syms if x in ('Counter32', 'Gauge32', 'TimeTicks', 'Unsigned32', 'IpAddress',
+                                                     'Counter64', 'Integer32')]
+                    if drop and len(syms) > len(drop):
+                        victim = rng.choice(drop)
+                        m.imports[gi] = (frm, [x for x in syms if x != victim])
+                        res.count('base_types_used_without_import')
+                        break
     texts = g.texts((lambda: Layout(rng, 'noisy')) if rng.random() < 0.2 else None)
     gt = rng.random() < 0.5
     c = compiled.Compiled(g, texts, load_texts=gt, genTexts=gt)
